@@ -37,7 +37,7 @@ def gen_cases(chk):
     cases.append({"graph": {"a": ["b"]}, "roles": None, "fam": "none"})
     cases.append({"graph": {}, "roles": ["x", "x"], "fam": "emptygraph"})
     # random larger graphs: cycles, diamonds, self-loops, duplicate parents, keys missing, non-ASCII names
-    n_rand = 3000 if chk.tier == "quick" else 40000
+    n_rand = 1000 if chk.tier == "quick" else 14000
     for _ in range(n_rand):
         n = rng.randint(1, 30)
         nodes = [rng.choice(["r", "Role", "é", "ß", "role-", ""]) + str(i) for i in range(n)]
@@ -51,8 +51,9 @@ def gen_cases(chk):
                 if rng.random() < 0.1:
                     ps.append(x)  # self-loop
                 g[x] = ps
-        rl = [rng.choice(nodes + ["nobody"]) for _ in range(rng.choice([0, 1, 1, 2, 3, 6]))]
-        cases.append({"graph": g, "roles": rl, "fam": "random"})
+        for _q in range(3):        # several queries per graph: the shared-instance run enters the graph at different roles
+            rl = [rng.choice(nodes + ["nobody"]) for _ in range(rng.choice([0, 1, 1, 2, 3, 6]))]
+            cases.append({"graph": g, "roles": rl, "fam": "random"})
     return cases
 
 
@@ -65,7 +66,42 @@ def impl_expand(c):
         return ["!raise", type(e).__name__]
 
 
-def engine_roles(c, flavour):
+_SHARED = {}
+
+
+def impl_expand_shared(c):
+    """the same query on a resolver instance that has already answered other queries for this graph"""
+    import copy
+    from rbacx.core.roles import StaticRoleResolver
+
+    key = repr(c["graph"])
+    if c.get("history") is not None:            # replay of a recorded failure: same instance history
+        g = copy.deepcopy(c["graph"])
+        inst, hist = StaticRoleResolver(g), []
+        for q in c["history"]:
+            try:
+                inst.expand(None if q is None else list(q))
+            except Exception:  # noqa: BLE001
+                pass
+    else:
+        if key not in _SHARED:
+            if len(_SHARED) > 64:
+                _SHARED.clear()
+            g = copy.deepcopy(c["graph"])
+            _SHARED[key] = (StaticRoleResolver(g), g, [])
+        inst, g, hist = _SHARED[key]
+        c["_hist"] = list(hist)
+        hist.append(c["roles"])
+    try:
+        out = inst.expand(None if c["roles"] is None else list(c["roles"]))
+    except Exception as e:  # noqa: BLE001
+        out = ["!raise", type(e).__name__]
+    if g != c["graph"]:
+        out = ["!graph-mutated", out]
+    return out
+
+
+def engine_roles(c, flavour, cache=False):
     """roles as conditions and the audit sink see them through Guard."""
     from rbacx.core.engine import Guard
     from rbacx.core.model import Action, Context, Resource, Subject
@@ -99,15 +135,22 @@ def engine_roles(c, flavour):
     pol = {"algorithm": "deny-overrides", "rules": rules}
     sink = Sink()
     res = {"sync": SyncR, "async": AsyncR, "raising": RaisingR}[flavour]()
-    g = Guard(pol, role_resolver=res, logger_sink=sink)
+    kw = {}
+    if cache:
+        from rbacx.core.cache import DefaultInMemoryCache
+        kw["cache"] = DefaultInMemoryCache(256)
+    g = Guard(pol, role_resolver=res, logger_sink=sink, **kw)
     subj = Subject(id="u", roles=list(c["roles"] or []))
     seen = []
 
     async def go():
-        for i, r in enumerate(universe):
-            d = await g.evaluate_async(subj, Action(f"a{i}"), Resource(type="doc", id="1"), Context({}))
-            if d.allowed:
-                seen.append(r)
+        for rnd in range(2 if cache else 1):       # with a cache: every request again (served from the cache)
+            for i, r in enumerate(universe):
+                d = await g.evaluate_async(subj, Action(f"a{i}"), Resource(type="doc", id="1"), Context({}))
+                if d.allowed and rnd == 0:
+                    seen.append(r)
+                elif rnd == 1 and d.allowed != (r in seen):
+                    seen.append("!cached-decision-differs:" + r)
 
     asyncio.run(go())
     audit = [p["env"]["subject"]["roles"] for p in sink.payloads]
@@ -126,18 +169,26 @@ def check_cases(chk, cases, replay=False):
         if out != m:
             chk.violation("expand != reflexive-transitive closure, sorted, deduplicated (model Roles.expand, "
                           "theorems c18_closure/c18_sorted_nodup)", c, impl=out, model=m)
+            continue
+        out2 = impl_expand_shared(c)
+        if out2 != m:
+            chk.violation("expand on a resolver instance that has answered earlier queries for the same graph != "
+                          "reflexive-transitive closure (the answer must not depend on earlier queries)",
+                          {"graph": c["graph"], "roles": c["roles"], "fam": c.get("fam"),
+                           "history": c.get("history", c.get("_hist", []))}, impl=out2, model=m)
     # engine part on a subset
     sub = [c for i, c in enumerate(cases) if c.get("engine") or (not replay and i % (97 if chk.tier == "quick" else 23) == 0)]
     if replay:
         sub = [c for c in cases if c.get("engine")]
     msub = _model_expand(sub)
     for c, m in zip(sub, msub):
-        for flavour in ("sync", "async", "raising"):
-            seen, audit, universe = engine_roles(c, flavour)
+        for flavour, cache in (("sync", False), ("async", False), ("raising", False), ("sync", True), ("async", True)):
+            seen, audit, universe = engine_roles(c, flavour, cache)
             own = list(c["roles"] or [])
-            expect = m if flavour != "raising" else own
+            expect = m if not flavour.startswith("raising") else own
             chk.mark(("engine", flavour, repr(c["graph"]), repr(c["roles"])), bool(universe))
-            chk.count("engine:" + flavour)
+            chk.count("engine:" + flavour + ("+cache" if cache else ""))
+            flavour = flavour + (" resolver, decision cache on, every request twice" if cache else "")
             want_seen = sorted(set(expect) & set(universe))
             if seen != want_seen:
                 chk.violation(f"conditions do not see exactly the expanded roles ({flavour} resolver)",
